@@ -74,6 +74,8 @@ fn fen_line(input: &str) -> IResult<&str, FenRank> {
     Ok((input, FenRank(squares)))
 }
 
+const MAX_MEN_PER_SIDE: u8 = 16;
+
 fn fen_position(input: &str) -> IResult<&str, Board> {
     let (input, board) = map(
         tuple((
@@ -230,6 +232,18 @@ fn fen_parser(input: &str) -> IResult<&str, Game> {
             )),
             tuple((space0, eof)),
         )(input)?;
+
+    // Neither side can have more than sixteen men. Boards beyond that are refused here, since
+    // everything built from the board (the evaluation accumulators in particular) is only
+    // sized for material that can occur in a game.
+    for side in [Player::White, Player::Black] {
+        if board.occupancy_for(side).count() > MAX_MEN_PER_SIDE {
+            return Err(nom::Err::Error(nom::error::Error::new(
+                input,
+                nom::error::ErrorKind::Verify,
+            )));
+        }
+    }
 
     let halfmove_clock = halfmove_clock.unwrap_or(0);
     let fullmove_number = fullmove_number.unwrap_or(1);
